@@ -96,6 +96,7 @@ def _gen_op(ch: core.Chooser, nslots: int, names: List[str]) -> dict:
         node["idx"] = ch.below(2)
     if fn == "noname_ctor":
         node["rows"] = ch.choice([[[0, 2], [0, 0]], [[0, 1]], [[0, 0, 3], [0, 1, 0]], [[1, 0], [0, 2]], [[0, 0, 1]]])
+        node["names"] = ch.sub("names").choice([None, None, "q", "x", "q"])  # one string stands for name0, name1, ...
     return node
 
 
@@ -331,7 +332,7 @@ class Exec:
         if fn == "noname_ctor":
             # no names given: the default names are positional, whatever columns are in use
             rows = node.get("rows") or [[0, 2], [0, 0]]
-            return n.polynomial_from_attributes(rows, [numpy.full(a.shape, i + 2) for i in range(len(rows))])
+            return n.polynomial_from_attributes(rows, [numpy.full(a.shape, i + 2) for i in range(len(rows))], **({"names": node["names"]} if node.get("names") else {}))
         if fn in ("const_tonumpy", "pow_by_poly"):
             nv = len(a.names)
             three = n.polynomial({(2,) + (0,) * (nv - 1): 0, (0,) * nv: 3}, names=a.names)
